@@ -12,6 +12,7 @@
 //!   {"op":"add_mixed_data", ..data.., "cipher":"-|S|A|X", kn, iv}
 //!   {"op":"add_encrypted_data", ..data.., "cipher":.., kn, iv, "idx":I}
 //!   {"op":"add_chunk", ..data.., "mode":"N|Z|4", "kind":"new|parsed"}
+//!   {"op":"compress", ..data.., "mode":.., "n":chunk size}     BlteFile::compress, a whole program by itself
 //!
 //! The driver only executes and records.  Everything that is *judged* (identity, truthfulness of the
 //! chunk table, which calls may fail) is decided by spec/trace/T_Blte.tla from the recorded events.
@@ -178,7 +179,31 @@ fn run_program(prog: &Value, out: &Emit) {
         out.begin(op);
         if name == "build" {
             let b = builder.take().expect("builder");
-            build_and_observe(b, op, &content, &ks, inline, &mut ev);
+            let ext = op.get("table").and_then(Value::as_str) == Some("ext");
+            let make = move || -> Result<BlteFile, String> {
+                let mut f = b.build().map_err(|e| e.to_string())?;
+                if ext {
+                    // the public way to get the 40-byte (0x10) table format
+                    f.header = BlteHeader::multi_chunk_extended(&f.chunks).map_err(|e| e.to_string())?;
+                }
+                Ok(f)
+            };
+            build_and_observe(make, &content, &ks, inline, &mut ev);
+            out.ev(ev);
+            return;
+        }
+        if name == "compress" {
+            // BlteFile::compress(data, chunk_size, mode): the one-call encoder
+            let data = gen_data(op, opi);
+            ev["dlen"] = json!(data.len());
+            if inline {
+                ev["data"] = bytes_json(&data);
+            }
+            let n = op["n"].as_u64().unwrap() as usize;
+            assert!(n > 0, "driver: chunk size 0 makes compress loop forever; not executed");
+            let mode = mode_of(op["mode"].as_str().unwrap());
+            let d2 = data.clone();
+            build_and_observe(move || BlteFile::compress(&d2, n, mode).map_err(|e| e.to_string()), &data, &ks, inline, &mut ev);
             out.ev(ev);
             return;
         }
@@ -261,17 +286,15 @@ fn run_program(prog: &Value, out: &Emit) {
     }
 }
 
-fn build_and_observe(b: BlteBuilder, op: &Value, content: &[u8], ks: &TactKeyStore, inline: bool, ev: &mut Value) {
+fn build_and_observe(
+    make: impl FnOnce() -> Result<BlteFile, String>,
+    content: &[u8],
+    ks: &TactKeyStore,
+    inline: bool,
+    ev: &mut Value,
+) {
     ev["content"] = digest(content, inline);
-    let ext = op.get("table").and_then(Value::as_str) == Some("ext");
-    let built = guarded(|| -> Result<BlteFile, String> {
-        let mut f = b.build().map_err(|e| e.to_string())?;
-        if ext {
-            // the public way to get the 40-byte (0x10) table format
-            f.header = BlteHeader::multi_chunk_extended(&f.chunks).map_err(|e| e.to_string())?;
-        }
-        Ok(f)
-    });
+    let built = guarded(make);
     let file = match built {
         Ok(Ok(f)) => f,
         Ok(Err(m)) => {
@@ -406,6 +429,13 @@ fn rand_cipher(rng: &mut Rng, op: &mut Value, allow_none: bool) {
     }
 }
 fn random_program(rng: &mut Rng) -> Value {
+    if rng.chance(1, 12) {
+        let cs = *rng.pick(&[1000u64, 1024, 4096, 65536, 262_144]);
+        let mut o = rand_data_op(rng, "compress", cs);
+        o["mode"] = json!(*rng.pick(&["N", "Z", "4", "Z", "4", "E", "F"]));
+        o["n"] = json!(cs);
+        return json!({"inline": false, "ops": [o]});
+    }
     let mut ops = vec![];
     let mut cs: u64 = 256 * 1024;
     let mut nchunks_guess: u64 = 0;
